@@ -625,6 +625,8 @@ impl State {
                 "unreachable".into()
             }
             "trace" => extra::drain_trace(),
+            "iotrace" => extra::io_trace(Some(t[1])),
+            "iodrain" => extra::io_trace(None),
             "mutate" => {
                 // mutate <dir> <file> <pos> <byte> : overwrite one byte of a closed file
                 let p = self.root.join(t[1]).join(t[2]);
